@@ -83,7 +83,7 @@ func constLikeGlobals(c *core.Ctx) map[*ssa.Global]bool {
 }
 
 func checkC13(c *core.Ctx, l *core.Ledger) {
-	l.Explanation = "Static clauses of C13: (ALLOC-BOUND) forward taint from every length/count read from the wire (results of ReadInt32/16/8 in the decode scope, the frame header word, and .Length of container headers) to allocation sizes (make length/capacity/map hint, Buffer.Grow): every such allocation must be dominated, on the allocating branch, by a comparison of the length against a compile-time constant or a constant-like package variable (initialised from a constant, never stored to in non-test code); (VALIDATED-COUNT) a lazy container is built from a wire count only after the skip pass over that many items succeeded; (TMPL-ALLOC) the same rule on the container Decoder/Reader templates of the generator and on generated instances. NOT decided: that work is linear in N; the numeric factor; allocations inside the standard library."
+	l.Explanation = "Static clauses of C13: (ALLOC-BOUND) forward taint from every length/count read from the wire (results of ReadInt32/16/8 in the decode scope, the frame header word, and .Length of container headers) to allocation sizes (make length/capacity/map hint, Buffer.Grow): every such allocation must be dominated, on the allocating branch, by a comparison of the length against a compile-time constant or a constant-like package variable (initialised from a constant, never stored to in non-test code); (VALIDATED-COUNT) a lazy container is built from a wire count only after the skip pass over that many items succeeded; (WORK-BOUND) every loop of the skip path whose trip count comes from the wire performs, on each iteration, a read that fails at end of input (a loop made of fixed-width skips alone would run as often as the header announces); (TMPL-ALLOC) the same rule on the container Decoder/Reader templates of the generator and on generated instances. NOT decided: that work is linear in N in general (only the two structural conditions above); the numeric factor; allocations inside the standard library."
 	l.RuleText = "one obligation per wire-length source; non-trivial = it reaches at least one allocation"
 	l.Assumptions = []string{"io.CopyN into a bytes.Buffer grows with the data actually read", "sync.Pool / runtime allocations are outside the rule"}
 	d := decodeScope(c, l)
@@ -162,6 +162,7 @@ func checkC13(c *core.Ctx, l *core.Ledger) {
 	}
 	l.Floor("ALLOC-BOUND", 8)
 
+	checkWorkBound(c, l)
 	// VALIDATED-COUNT
 	m := newWireModel(c)
 	for _, name := range []string{"readListStream", "readSetStream", "readMapStream"} {
@@ -303,4 +304,58 @@ func calleeObtainsLazy(f *ssa.Function, depth int) bool {
 		}
 	})
 	return found
+}
+
+// checkWorkBound: a loop whose trip count comes from the wire must, on every
+// iteration, perform a read that fails when the input is exhausted. Skipping a
+// fixed-width value only moves a cursor (a seek never reports end of input), so
+// a counted loop made of fixed-width skips alone runs "count" times whatever
+// the input holds: a 11-byte message announcing 2^31 entries costs 2^31
+// iterations. Decided on the per-type skip signatures (type fixed, helpers
+// expanded in place): every alternative with loop events contains a read
+// primitive or the skip of a type that is known, in that alternative, not to be
+// fixed-width.
+func checkWorkBound(c *core.Ctx, l *core.Ledger) {
+	names := map[int64]string{12: "TStruct", 13: "TMap", 14: "TSet", 15: "TList"}
+	for code := int64(12); code <= 15; code++ {
+		sig := canonNames(skipSignature(c, code))
+		key := "Skip(" + names[code] + ")"
+		if sig == "" || sig == "?" {
+			l.Unk("WORK-BOUND", key, "", "no skip signature")
+			continue
+		}
+		var why []string
+		// alternatives: the signature is a flat sequence with optional alt{a|b|c}
+		alts := []string{sig}
+		if i := strings.Index(sig, "alt{"); i >= 0 {
+			j := strings.LastIndex(sig, "}")
+			alts = splitTop(sig[i+4:j], '|')
+		}
+		for _, a := range alts {
+			if !strings.Contains(a, "loop:") {
+				continue
+			}
+			reads := false
+			for _, ev := range strings.Fields(a) {
+				if !strings.HasPrefix(ev, "loop:") {
+					continue
+				}
+				e := strings.TrimPrefix(ev, "loop:")
+				switch {
+				case strings.HasPrefix(e, "u8") || strings.HasPrefix(e, "be16") || strings.HasPrefix(e, "be32") || strings.HasPrefix(e, "be64") || strings.HasPrefix(e, "readfull") || strings.HasPrefix(e, "bytes"):
+					reads = true
+				case strings.HasPrefix(e, "call:Skip(") && strings.HasSuffix(e, ")"):
+					t := strings.TrimSuffix(strings.TrimPrefix(e, "call:Skip("), ")")
+					if strings.Contains(a, "!fw("+t+")>0") {
+						reads = true // a variable-width value starts with a header that is really read
+					}
+				}
+			}
+			if !reads {
+				why = append(why, "the loop in ["+a+"] only moves the cursor over fixed-width values: it runs as many times as the header announces, even on an empty input")
+			}
+		}
+		l.Check(len(why) == 0, "WORK-BOUND", key, "", "every counted loop of the skip path reads (and so stops at end of input) on each iteration", strings.Join(why, "; "))
+	}
+	l.Floor("WORK-BOUND", 4)
 }
